@@ -1,6 +1,6 @@
 // C56: DoH request -> dns.Msg with EDNS client-subnet — drives the real mod_doh.RequestToDnsMsg.
 //
-// op  `doh <method> <dns> <body> <ra> <ca> <w> <u>`
+// op  `doh <method> <dns> <body> <ra> <ca> <w> <u> [<rs>]`   rs = read script of the body (see scriptReader), default `-`
 //   method  HTTP method;  dns = `none` | comma list of the values of query parameter "dns" (each hex of the raw value)
 //   body    hex of the request body;  ra / ca = `nil` | hex of RemoteAddr.IP / ClientAddr.IP (any length)
 //   w       hex of the bytes the unpack oracle `u` speaks about (`=` : the body)
@@ -15,9 +15,11 @@ import (
 	"bytes"
 	"encoding/base64"
 	"fmt"
+	"io"
 	"io/ioutil"
 	"net"
 	"net/url"
+	"strconv"
 	"strings"
 
 	"bfeverif/harness/internal/vh"
@@ -216,12 +218,70 @@ func genRsp(r *vh.Rand) string {
 	return fmt.Sprintf("rsp %s %s %s %s", as, nss, es, packLen(buildReply(an, ns, ex)))
 }
 
+// scriptReader is the request body: it returns the body in the pieces the script says — sizes `n.n.n` (0 = an empty read
+// with a nil error), then the rest in one piece; a trailing `e` delivers io.EOF together with the last data.
+type scriptReader struct {
+	b      []byte
+	sizes  []int
+	eofNow bool
+}
+
+func newScriptReader(b []byte, script string) (io.ReadCloser, bool) {
+	if script == "-" {
+		return ioutil.NopCloser(bytes.NewReader(b)), true
+	}
+	sr := &scriptReader{b: b}
+	if strings.HasSuffix(script, "e") {
+		sr.eofNow = true
+		script = script[:len(script)-1]
+	}
+	if script != "" {
+		for _, x := range strings.Split(script, ".") {
+			n, err := strconv.Atoi(x)
+			if err != nil || n < 0 {
+				return nil, false
+			}
+			sr.sizes = append(sr.sizes, n)
+		}
+	}
+	return ioutil.NopCloser(sr), true
+}
+
+func (s *scriptReader) Read(p []byte) (int, error) {
+	if len(s.b) == 0 {
+		return 0, io.EOF
+	}
+	n := len(s.b)
+	if len(s.sizes) > 0 {
+		n = s.sizes[0]
+		s.sizes = s.sizes[1:]
+		if n == 0 {
+			return 0, nil
+		}
+	}
+	if n > len(s.b) {
+		n = len(s.b)
+	}
+	if n > len(p) {
+		n = len(p)
+	}
+	copy(p, s.b[:n])
+	s.b = s.b[n:]
+	if len(s.b) == 0 && s.eofNow {
+		return n, io.EOF
+	}
+	return n, nil
+}
+
 func exec(op string) string {
 	f := strings.Fields(op)
 	if len(f) > 0 && f[0] == "rsp" {
 		return execRsp(f)
 	}
-	if len(f) != 8 || f[0] != "doh" {
+	if len(f) == 8 {
+		f = append(f, "-")
+	}
+	if len(f) != 9 || f[0] != "doh" {
 		return "bad-op"
 	}
 	method := f[1]
@@ -254,8 +314,12 @@ func exec(op string) string {
 	if oracle(w) != f[7] {
 		return "bad-oracle"
 	}
+	rd, ok := newScriptReader(body, f[8])
+	if !ok {
+		return "bad-op"
+	}
 	hr := &bfe_http.Request{Method: method, URL: &url.URL{Path: "/dns-query", RawQuery: q.Encode()},
-		Body: ioutil.NopCloser(bytes.NewReader(body)), Header: bfe_http.Header{}}
+		Body: rd, Header: bfe_http.Header{}}
 	req := &bfe_basic.Request{HttpRequest: hr, RemoteAddr: ra, ClientAddr: ca}
 	m, err := mod_doh.RequestToDnsMsg(req)
 	res := "err"
@@ -501,12 +565,26 @@ func gen(r *vh.Rand) string {
 	} else {
 		orc = oracle(w)
 	}
-	return fmt.Sprintf("doh %s %s %s %s %s %s %s", method, dnsv, vh.Hex(body), genIP(r), func() string {
+	script := "-"
+	if len(body) > 0 && r.Chance(3, 5) { // how req.Body.Read hands the body over
+		var xs []string
+		for i, n := 0, r.Range(0, 4); i < n; i++ {
+			xs = append(xs, strconv.Itoa(pick(r, 1, 2, 3, 7, 11, 12, 13, 0, len(body)-1, len(body)/2, r.Intn(len(body)+1), 512, 4096, 8191)))
+		}
+		script = strings.Join(xs, ".")
+		if r.Bool() {
+			script += "e"
+		}
+		if script == "" {
+			script = "-"
+		}
+	}
+	return fmt.Sprintf("doh %s %s %s %s %s %s %s %s", method, dnsv, vh.Hex(body), genIP(r), func() string {
 		if r.Bool() {
 			return "nil"
 		}
 		return genIP(r)
-	}(), wf, orc)
+	}(), wf, orc, script)
 }
 
 func main() { vh.Main(gen, exec) }
